@@ -19,12 +19,17 @@ import z3
 from .vals import *   # noqa
 
 
+DEFS = {}     # id of a naming constant -> the term it names (installed by the executor)
+
+
 def tokens(s):
-    """Flatten a String term into [('lit', str) | ('var', term)]."""
+    """Flatten a String term into [('lit', str) | ('var', term)] (looking through naming constants)."""
     s = simp(s)
     out = []
 
     def go(t):
+        if t.get_id() in DEFS:
+            return go(simp(DEFS[t.get_id()]))
         if z3.is_string_value(t):
             v = t.as_string()
             if v:
